@@ -33,8 +33,9 @@ pub fn cases(tier: Tier) -> Vec<Case> {
         Case { writers: 2, readers: 0, liveness: false, num_pages: 64, bound: if q { 3 } else { 4 } },
     ];
     if !q {
-        v.push(Case { writers: 3, readers: 2, liveness: false, num_pages: 4, bound: 2 });
-        v.push(Case { writers: 2, readers: 2, liveness: false, num_pages: 4, bound: 3 });
+        v.push(Case { writers: 3, readers: 1, liveness: false, num_pages: 4, bound: 2 });
+        v.push(Case { writers: 2, readers: 2, liveness: false, num_pages: 4, bound: 2 });
+        v.push(Case { writers: 3, readers: 2, liveness: false, num_pages: 4, bound: 1 });
     } else {
         v.push(Case { writers: 2, readers: 2, liveness: false, num_pages: 4, bound: 1 });
     }
